@@ -521,6 +521,7 @@ type AbacoUDPReceiver struct {
 	conn     *net.UDPConn           // active UDP connection
 	data     chan []*packets.Packet // channel for sending next bunch of packets to downstream processor
 	sendmore chan bool              // a channel by which downstream processor signals readiness for next bunch of packets
+	started  bool                   // start() has succeeded and stop() has not run since
 }
 
 // NewAbacoUDPReceiver creates a new AbacoUDPReceiver and binds as a server to the requested host:port
@@ -549,6 +550,7 @@ func (device *AbacoUDPReceiver) start() (err error) {
 
 	device.sendmore = make(chan bool)
 	device.data = make(chan []*packets.Packet)
+	device.started = true
 
 	// Two goroutines:
 	// 1. Read from the UDP socket, put packet on channel singlepackets.
@@ -659,6 +661,10 @@ func (device *AbacoUDPReceiver) samplePackets(maxSampleTime time.Duration) (allP
 
 // stop closes the UDP connection
 func (device *AbacoUDPReceiver) stop() error {
+	if !device.started {
+		return nil // start() failed or never ran, or stop() ran already: nothing is open
+	}
+	device.started = false
 	err := device.conn.Close()
 	close(device.sendmore)
 	return err
@@ -860,11 +866,17 @@ func (as *AbacoSource) Sample() error {
 	// Now sort the packets received into the right AbacoGroups
 	as.nchan = 0
 	as.groups = make(map[GroupIndex]*AbacoGroup)
+	// Collect the result of every producer, also after one of them has failed: their goroutines
+	// must have finished before Sample returns and the devices can be closed again.
+	var firstErr error
 	for range as.producers {
 		results := <-sampleResults
 		now := time.Now()
 		if results.err != nil {
-			return results.err
+			if firstErr == nil {
+				firstErr = results.err
+			}
+			continue
 		}
 		// Create new AbacoGroup for each GroupIndex seen
 		for _, p := range results.allpackets {
@@ -878,6 +890,9 @@ func (as *AbacoSource) Sample() error {
 			}
 		}
 		as.distributePackets(results.allpackets, now)
+	}
+	if firstErr != nil {
+		return firstErr
 	}
 
 	// Verify that no channel # appears in 2 groups.
